@@ -181,6 +181,18 @@ MUTANTS = {
         ('remove-drops-by-id-when-keeping', IS, "        if remove_data_only {\n", "        if remove_data_only {\n            if let Some(d) = data.as_ref() { self.by_id.remove(&d.id); }\n"),
     ],
     'C12': [
+        ('overlay-open-writeback-by-config', 'src/overlayfs/sync_io.rs', """        flags |= libc::O_NOFOLLOW;
+
+        if self.writeback.load(Ordering::Relaxed) {""", """        flags |= libc::O_NOFOLLOW;
+
+        if self.config.writeback {"""),
+        ('overlay-create-writeback-by-config', 'src/overlayfs/sync_io.rs', """        flags &= !libc::O_DIRECT;
+        if self.writeback.load(Ordering::Relaxed) {""", """        flags &= !libc::O_DIRECT;
+        if self.config.writeback {"""),
+        ('overlay-init-killpriv-unconditional', 'src/overlayfs/sync_io.rs', """        if (!self.config.do_import || self.config.killpriv_v2)
+            && capable.contains(FsOptions::HANDLE_KILLPRIV_V2)
+        {""", """        if !self.config.do_import || self.config.killpriv_v2
+        {"""),
         ('enabled-is-want', S, "                let enabled = capable & want;", "                let enabled = want;"),
         ('flags2-from-capable', S, "                    flags2: (enabled_flags >> 32) as u32,", "                    flags2: (capable.bits() >> 32) as u32,"),
         ('size-thresholds-swapped', S, "                if minor < KERNEL_MINOR_VERSION_INIT_OUT_SIZE {", "                if minor < KERNEL_MINOR_VERSION_INIT_22_OUT_SIZE {"),
